@@ -9,7 +9,7 @@ from pv import model
 from pv.rules import signatures as S
 prog = model.load(sys.argv[1] if len(sys.argv) > 1 else '/repo')
 out = {}
-for q, (fn, rel) in sorted(S.public_callables(prog).items()):
-    out[q] = {'file': rel, 'sig': S.signature_of(fn)}
+for q, (fn, rel, scopes) in sorted(S.public_callables(prog).items()):
+    out[q] = {'file': rel, 'sig': S.signature_of(fn, scopes)}
 json.dump(out, open(S.REF, 'w'), indent=1, sort_keys=True)
 print('%d callables written to %s' % (len(out), S.REF))
